@@ -105,6 +105,30 @@ def reset_coverage(rep, fb, rule, only=None):
         rep.sample({'engine': eng, 'persistent': persistent, 'scratch_cleared_at_top': sorted(scratch), 'reset_writes': sorted(rwr)})
 
 
+def timer_joined_before_members(rep, fb, rule):
+    """the timer thread delivers into the interpreter (eventReady); the destructor must be rid of the queue - whose destructor joins
+    the thread - before the members eventReady uses go away (shared by C10 R10.5 and C09 R09.9)"""
+    impl = 'uscxml::InterpreterImpl'
+    di = fb.fn(impl + '::~InterpreterImpl')
+    er = fb.fn(impl + '::eventReady')
+    fields = [fd['name'] for fd in fb.records[impl]['fields']]
+    used = sorted({n['ref'].get('name') for n in er.walk() if n['k'] == 'MemberExpr' and n['ref'].get('rec') == impl and n['ref'].get('name') in fields} - {'_delayQueue'})
+    if not used or '_delayQueue' not in fields:
+        raise AnalysisBroken('eventReady: members used on the timer thread / field _delayQueue not found')
+    # members are destroyed in reverse declaration order: those declared AFTER _delayQueue die before it
+    after = [m for m in used if fields.index(m) > fields.index('_delayQueue')]
+    drops = [n for n in di.walk() if n['k'] == 'CXXOperatorCallExpr' and n.get('op') == '=' and len(n.get('c', [])) > 2 and strip(n['c'][1])['k'] == 'MemberExpr'
+             and strip(n['c'][1])['ref'].get('name') == '_delayQueue' and strip(n['c'][1])['ref'].get('rec') == impl]
+    dele = [n for n in di.walk() if n['k'] == 'CXXDeleteExpr']
+    gd = cfgm.CFG(di)
+    early = bool(drops) and all(gd.can_reach(gd.pos[x['id']], [drops[0]['id']]) is None for x in dele if x['id'] in gd.pos and drops[0]['id'] in gd.pos)
+    ok = not after or early
+    rep.check(ok, rule, '~InterpreterImpl|timer joined before members', locstr(drops[0]) if drops else di.where(),
+              'eventReady() runs on the timer thread and uses %s; %s' % (', '.join(used), 'the destructor lets go of _delayQueue (joining the thread) before it deletes anything' if early else
+              ('these are declared before _delayQueue and outlive it' if not after else
+               '%s are destroyed BEFORE _delayQueue, whose destructor is what joins the timer thread, and the destructor body does not let go of the queue first: a delivery in flight (timerCallback has already erased its entry, so cancelAllDelayed finds nothing) runs into freed members' % ', '.join(after))))
+
+
 def run(rep, tier):
     rep.rule('R10.1', 'life-cycle automaton from the exact _flags relation of both engines: FINISHED absorbing; CANCELLED only under the cancel mark and sets TOP_LEVEL_FINAL; TOP_LEVEL_FINAL is followed by exactly one finalising step (completion bracket, exit handlers, FINISHED set); IDLE only when STABLE; PRISTINE leads to the initial micro-step; InterpreterImpl::step returns INITIALIZED once without delegating')
     rep.rule('R10.2', 'API safe before the first step: in receive/cancel/reset/destructor every use of a facade handle that init() creates is guarded by the handle test or preceded by init() / on-demand creation on every path')
@@ -422,6 +446,7 @@ def run(rep, tier):
     before = bool(cad) and gd.can_reach(gd.pos[cad[0]['id']], [dele[0]['id']]) is not None
     if cad:
       rep.check(bool(before) and gd.can_reach(gd.pos[dele[0]['id']], [cad[0]['id']]) is None, 'R10.5', '~InterpreterImpl|cancel-before-delete', di.where(), 'pending delayed events are cancelled before the document they reference is deleted')
+    timer_joined_before_members(rep, fb, 'R10.5')
     dd = fb.fn(dq + '::~BasicDelayedEventQueue')
     gdd = cfgm.CFG(dd)
     stopc = [n for n in dd.walk() if n.get('callee', {}).get('q', '').endswith('::stop')]
